@@ -142,6 +142,35 @@ def check_polygons(repo, res):
                             return r
             return None
 
+        # a helper without a `hull` name of its own runs in the mode of its call sites
+        own_hull = any(isinstance(x, ast.Name) and x.id == "hull" for x in ast.walk(fn.node)) or "hull" in fn.all_params
+        if not own_hull:
+            sites = []
+            for g in mi.functions.values():
+                gpar = {}
+                for p in ast.walk(g.node):
+                    for ch in ast.iter_child_nodes(p):
+                        gpar[ch] = p
+                for c in ast.walk(g.node):
+                    if isinstance(c, ast.Call) and getattr(c.func, "id", None) == fn.name:
+                        mode, child, p = None, c, gpar.get(c)
+                        while p is not None and mode is None:
+                            if isinstance(p, (ast.If, ast.IfExp)):
+                                t = p.test
+                                neg = isinstance(t, ast.UnaryOp) and isinstance(t.op, ast.Not)
+                                core = t.operand if neg else t
+                                if isinstance(core, ast.Name) and core.id == "hull":
+                                    body = p.body if isinstance(p.body, list) else [p.body]
+                                    orelse = p.orelse if isinstance(p.orelse, list) else [p.orelse]
+                                    if any(child is b for b in body):
+                                        mode = not neg
+                                    elif any(child is b for b in orelse):
+                                        mode = neg
+                            child, p = p, gpar.get(p)
+                        sites.append(mode)
+            if sites and all(m is True for m in sites):
+                res.inst("L-POLY", f"{fn.qualname}: polygon helper called in hull mode only ({len(sites)} call site(s))", True)
+                continue
         for c in calls:
             if hull_mode(c) is True:
                 continue
